@@ -4,7 +4,7 @@
    pot_fill, treat_fill, geomcomp, comp_names) are those of C09/Model.v that
    the correspondence ties execute against the Python code. *)
 From Coq Require Import List NArith ZArith Bool String Ascii.
-From T4V Require Import Base.Str C09.Model C09.Spec C09.ProofsNorm C09.ProofsFill C09.ProofsComp.
+From T4V Require Import Base.Str C09.Model C09.Spec C09.ProofsNorm C09.ProofsIdem C09.ProofsFill C09.ProofsComp.
 Import ListNotations.
 Open Scope string_scope.
 
@@ -58,6 +58,19 @@ Theorem C09_normal_form_fixed : forall (n : number) (pad : nat),
   wf_number n = true -> normalize_float (normal_form n pad) = Ok (normal_form n pad).
 Proof. exact normal_form_fixed. Qed.
 Print Assumptions C09_normal_form_fixed.
+
+(* for ALL strings (no assumption on the token): what normalize_float returns
+   is a fixed point; hence whatever density parse_material stores satisfies the
+   hypothesis [dens_normal] of C09_compositions_exact below *)
+Theorem C09_normalize_float_idempotent : forall s n : string,
+  normalize_float s = Ok n -> normalize_float n = Ok n.
+Proof. exact normalize_float_idempotent. Qed.
+Print Assumptions C09_normalize_float_idempotent.
+
+Theorem C09_parse_material_density_fixed : forall (toks : list string) (m d : string),
+  parse_material toks = Ok (m, Some d) -> normalize_float d = Ok d.
+Proof. exact parse_material_density_fixed. Qed.
+Print Assumptions C09_parse_material_density_fixed.
 
 (* the (material, density) pair stored in a cell is the same for all spellings
    of a class *)
